@@ -115,23 +115,26 @@ theorem blk_T (data : List UInt32) (j i : UInt32) (s : RS) : (blk data j i s).1.
   unfold blk; split <;> rfl
 
 theorem R_step (kk data : List UInt32) (j : UInt32) (i : Nat) (hi : i < 16)
-    (t0 t1 t2 t3 t4 t5 t6 t7 : UInt32) (W : List UInt32) :
-    (R kk data j (UInt32.ofNat i) ⟨[t0, t1, t2, t3, t4, t5, t6, t7], W⟩).W =
-      (blk data j (UInt32.ofNat i) ⟨[t0, t1, t2, t3, t4, t5, t6, t7], W⟩).1.W ∧
-    (R kk data j (UInt32.ofNat i) ⟨[t0, t1, t2, t3, t4, t5, t6, t7], W⟩).T.length = 8 ∧
-    regsAt (R kk data j (UInt32.ofNat i) ⟨[t0, t1, t2, t3, t4, t5, t6, t7], W⟩).T (i + 1) =
+    (t0 t1 t2 t3 t4 t5 t6 t7 : UInt32) (W : List UInt32) (ok : Bool)
+    (hk : (UInt32.ofNat i + j).toNat < kk.length) :
+    (R kk data j (UInt32.ofNat i) ⟨[t0, t1, t2, t3, t4, t5, t6, t7], W, ok⟩).W =
+      (blk data j (UInt32.ofNat i) ⟨[t0, t1, t2, t3, t4, t5, t6, t7], W, ok⟩).1.W ∧
+    (R kk data j (UInt32.ofNat i) ⟨[t0, t1, t2, t3, t4, t5, t6, t7], W, ok⟩).ok =
+      (blk data j (UInt32.ofNat i) ⟨[t0, t1, t2, t3, t4, t5, t6, t7], W, ok⟩).1.ok ∧
+    (R kk data j (UInt32.ofNat i) ⟨[t0, t1, t2, t3, t4, t5, t6, t7], W, ok⟩).T.length = 8 ∧
+    regsAt (R kk data j (UInt32.ofNat i) ⟨[t0, t1, t2, t3, t4, t5, t6, t7], W, ok⟩).T (i + 1) =
       Spec.round (regsAt [t0, t1, t2, t3, t4, t5, t6, t7] i) (kk.getD (UInt32.ofNat i + j).toNat 0)
-        (blk data j (UInt32.ofNat i) ⟨[t0, t1, t2, t3, t4, t5, t6, t7], W⟩).2 := by
+        (blk data j (UInt32.ofNat i) ⟨[t0, t1, t2, t3, t4, t5, t6, t7], W, ok⟩).2 := by
   have hb : ∀ s : RS, (if j ≠ 0 then (blk2 (UInt32.ofNat i) s) else (blk0 data (UInt32.ofNat i) s)) =
       blk data j (UInt32.ofNat i) s := fun _ => rfl
-  simp only [R, hb, blk_T, idxT0 i hi, idxT1 i hi, idxT2 i hi, idxT3 i hi, idxT4 i hi, idxT5 i hi, idxT6 i hi, idxT7 i hi]
+  simp only [R, hb, blk_T, inb_eq kk _ hk, idxT0 i hi, idxT1 i hi, idxT2 i hi, idxT3 i hi, idxT4 i hi, idxT5 i hi,
+    idxT6 i hi, idxT7 i hi]
   generalize kk.getD (UInt32.ofNat i + j).toNat 0 = kt
-  generalize (blk data j (UInt32.ofNat i) ⟨[t0, t1, t2, t3, t4, t5, t6, t7], W⟩) = bw
+  generalize (blk data j (UInt32.ofNat i) ⟨[t0, t1, t2, t3, t4, t5, t6, t7], W, ok⟩) = bw
   have : i = 0 ∨ i = 1 ∨ i = 2 ∨ i = 3 ∨ i = 4 ∨ i = 5 ∨ i = 6 ∨ i = 7 ∨ i = 8 ∨ i = 9 ∨ i = 10 ∨ i = 11 ∨
       i = 12 ∨ i = 13 ∨ i = 14 ∨ i = 15 := by omega
   rcases this with rfl | rfl | rfl | rfl | rfl | rfl | rfl | rfl | rfl | rfl | rfl | rfl | rfl | rfl | rfl | rfl <;>
-    simp [wr, regsAt, Spec.round, S0_eq, S1_eq, Ch_eq, Maj_eq] <;> (try (and_intros <;> ac_rfl)) <;> ac_rfl
-
+    simp [wr, inb, regsAt, Spec.round, S0_eq, S1_eq, Ch_eq, Maj_eq] <;> (try (and_intros <;> ac_rfl)) <;> ac_rfl
 
 theorem getD_set_eq {α : Type} (l : List α) (n : Nat) (v d : α) (h : n < l.length) : (l.set n v).getD n d = v := by
   simp [List.getD_eq_getElem?_getD, h]
@@ -147,6 +150,7 @@ theorem rounds_succ (w : List UInt32) (n : Nat) (r : Spec.Regs) :
 structure RInv (data : List UInt32) (r0 : Spec.Regs) (j i : Nat) (s : RS) : Prop where
   hT : s.T.length = 8
   hW : s.W.length = 16
+  ok : s.ok = true
   regs : regsAt s.T i = Spec.rounds (Spec.schedule data) (j + i) r0
   win : ∀ u, u < j + i → j + i ≤ u + 16 → s.W.getD (u % 16) 0 = (Spec.schedule data).getD u 0
 
@@ -158,6 +162,7 @@ theorem blk_spec (data : List UInt32) (hd : data.length = 16) (r0 : Spec.Regs) (
     (hi : i < 16) (s : RS) (h : RInv data r0 j i s) :
     (blk data (UInt32.ofNat j) (UInt32.ofNat i) s).2 = (Spec.schedule data).getD (j + i) 0 ∧
     (blk data (UInt32.ofNat j) (UInt32.ofNat i) s).1.W.length = 16 ∧
+    (blk data (UInt32.ofNat j) (UInt32.ofNat i) s).1.ok = true ∧
     ∀ u, u < j + i + 1 → j + i + 1 ≤ u + 16 →
       (blk data (UInt32.ofNat j) (UInt32.ofNat i) s).1.W.getD (u % 16) 0 = (Spec.schedule data).getD u 0 := by
   have hW := h.hW
@@ -166,8 +171,9 @@ theorem blk_spec (data : List UInt32) (hd : data.length = 16) (r0 : Spec.Regs) (
     have : blk data (UInt32.ofNat 0) (UInt32.ofNat i) s = blk0 data (UInt32.ofNat i) s := by
       unfold blk; simp
     rw [this]
-    simp only [blk0, idxI i hi, Nat.zero_add, wr_eq_set s.W i _ (by omega), List.length_set]
-    refine ⟨(schedule_lt16 data hd i hi).symm, hW, ?_⟩
+    simp only [blk0, idxI i hi, Nat.zero_add, wr_eq_set s.W i _ (by omega), List.length_set,
+      inb_eq data i (by omega), h.ok, Bool.and_self]
+    refine ⟨(schedule_lt16 data hd i hi).symm, hW, trivial, ?_⟩
     intro u hu1 hu2
     by_cases hu : u = i
     · subst hu
@@ -181,6 +187,8 @@ theorem blk_spec (data : List UInt32) (hd : data.length = 16) (r0 : Spec.Regs) (
     simp only [blk2]
     rw [idxW2 i hi, idxW7 i hi, idxW15 i hi, idxW0 i hi]
     rw [wr_eq_set s.W i _ (by omega), s0_eq, s1_eq, List.length_set]
+    simp only [inb_eq s.W _ (by omega : (i + 14) % 16 < s.W.length), inb_eq s.W _ (by omega : (i + 9) % 16 < s.W.length),
+      inb_eq s.W _ (by omega : (i + 1) % 16 < s.W.length), inb_eq s.W i (by omega), h.ok, Bool.and_self]
     have e2 : (i + 14) % 16 = (j + i - 2) % 16 := by omega
     have e7 : (i + 9) % 16 = (j + i - 7) % 16 := by omega
     have e15 : (i + 1) % 16 = (j + i - 15) % 16 := by omega
@@ -196,7 +204,7 @@ theorem blk_spec (data : List UInt32) (hd : data.length = 16) (r0 : Spec.Regs) (
       generalize (Spec.schedule data).getD (j + i - 15) 0 = c
       generalize (Spec.schedule data).getD (j + i - 16) 0 = d
       ac_rfl
-    refine ⟨hv, hW, ?_⟩
+    refine ⟨hv, hW, trivial, ?_⟩
     intro u hu1 hu2
     by_cases hu : u = j + i
     · subst hu
@@ -209,13 +217,15 @@ theorem R_inv (data : List UInt32) (hd : data.length = 16) (r0 : Spec.Regs) (j i
     (hi : i < 16) (s : RS) (h : RInv data r0 j i s) :
     RInv data r0 j (i + 1) (R Sha256.K data (UInt32.ofNat j) (UInt32.ofNat i) s) := by
   obtain ⟨t0, t1, t2, t3, t4, t5, t6, t7, hT⟩ := list8 s.T h.hT
-  obtain ⟨T, W⟩ := s
+  obtain ⟨T, W, ok⟩ := s
   simp only at hT
   subst hT
-  obtain ⟨hv, hWl, hwin⟩ := blk_spec data hd r0 j i hj hj64 hi _ h
-  obtain ⟨h1, h2, h3⟩ := R_step Sha256.K data (UInt32.ofNat j) i hi t0 t1 t2 t3 t4 t5 t6 t7 W
-  refine ⟨h2, by rw [h1]; exact hWl, ?_, ?_⟩
-  · rw [h3, hv, idxK j hj64 i hi, ← Nat.add_assoc, rounds_succ, ← h.regs, genK_eq, Nat.add_comm i j]
+  obtain ⟨hv, hWl, hok, hwin⟩ := blk_spec data hd r0 j i hj hj64 hi _ h
+  have hk : (UInt32.ofNat i + UInt32.ofNat j).toNat < Sha256.K.length := by
+    rw [idxK j hj64 i hi, show Sha256.K.length = 64 from by decide]; omega
+  obtain ⟨h1, h2, h3, h4⟩ := R_step Sha256.K data (UInt32.ofNat j) i hi t0 t1 t2 t3 t4 t5 t6 t7 W ok hk
+  refine ⟨h3, by rw [h1]; exact hWl, by rw [h2]; exact hok, ?_, ?_⟩
+  · rw [h4, hv, idxK j hj64 i hi, ← Nat.add_assoc, rounds_succ, ← h.regs, genK_eq, Nat.add_comm i j]
   · intro u hu1 hu2
     rw [h1]
     exact hwin u (by omega) (by omega)
@@ -238,7 +248,7 @@ theorem innerLoop_inv (data : List UInt32) (hd : data.length = 16) (r0 : Spec.Re
 
 theorem RInv_next (data : List UInt32) (r0 : Spec.Regs) (j : Nat) (s : RS) (h : RInv data r0 j 16 s) :
     RInv data r0 (j + 16) 0 s :=
-  ⟨h.hT, h.hW, h.regs, h.win⟩
+  ⟨h.hT, h.hW, h.ok, h.regs, h.win⟩
 
 theorem outerLoop_eq (data : List UInt32) (s : RS) :
     outerLoop data 0 s = innerLoop data 48 0 (innerLoop data 32 0 (innerLoop data 16 0 (innerLoop data 0 0 s))) := by
@@ -246,31 +256,34 @@ theorem outerLoop_eq (data : List UInt32) (s : RS) :
     if_pos (by omega), outerLoop, if_neg (by omega)]
 
 theorem transformFrom_eq_compress (w0 st data : List UInt32) (hw : w0.length = 16) (hs : st.length = 8)
-    (hd : data.length = 16) : transformFrom w0 st data = Spec.compress st data := by
+    (hd : data.length = 16) : transformFrom w0 st data = (Spec.compress st data, true) := by
   obtain ⟨h0, h1, h2, h3, h4, h5, h6, h7, rfl⟩ := list8 st hs
   let r0 : Spec.Regs := ⟨h0, h1, h2, h3, h4, h5, h6, h7⟩
-  have hinit : RInv data r0 0 0 ⟨[h0, h1, h2, h3, h4, h5, h6, h7], w0⟩ :=
-    ⟨rfl, hw, rfl, by intro u hu; omega⟩
+  have hok0 : ((List.range 8).all fun j => inb [h0, h1, h2, h3, h4, h5, h6, h7] j) = true := by
+    simp [inb, List.range, List.range.loop]
+  have hinit : RInv data r0 0 0 ⟨[h0, h1, h2, h3, h4, h5, h6, h7], w0, true⟩ :=
+    ⟨rfl, hw, rfl, rfl, by intro u hu; omega⟩
   have a1 := RInv_next _ _ _ _ (innerLoop_inv data hd r0 0 (by omega) (by omega) 16 0 _ rfl (by omega) hinit)
   have a2 := RInv_next _ _ _ _ (innerLoop_inv data hd r0 16 (by omega) (by omega) 16 0 _ rfl (by omega) a1)
   have a3 := RInv_next _ _ _ _ (innerLoop_inv data hd r0 32 (by omega) (by omega) 16 0 _ rfl (by omega) a2)
   have a4 := RInv_next _ _ _ _ (innerLoop_inv data hd r0 48 (by omega) (by omega) 16 0 _ rfl (by omega) a3)
   have hT0 : ((List.range 8).map fun j => [h0, h1, h2, h3, h4, h5, h6, h7].getD j 0) = [h0, h1, h2, h3, h4, h5, h6, h7] := rfl
   unfold transformFrom
-  simp only [hT0, outerLoop_eq]
+  simp only [hT0, hok0, outerLoop_eq]
   generalize innerLoop data 48 0 (innerLoop data 32 0 (innerLoop data 16 0 (innerLoop data 0 0
-    ⟨[h0, h1, h2, h3, h4, h5, h6, h7], w0⟩))) = sF at a4 ⊢
+    ⟨[h0, h1, h2, h3, h4, h5, h6, h7], w0, true⟩))) = sF at a4 ⊢
   have hr := a4.regs
   simp only [Nat.add_zero] at hr
+  obtain ⟨u0, u1, u2, u3, u4, u5, u6, u7, hU⟩ := list8 sF.T a4.hT
   have hc : Spec.compress [h0, h1, h2, h3, h4, h5, h6, h7] data =
       let r := Spec.rounds (Spec.schedule data) 64 r0
       [r.a + h0, r.b + h1, r.c + h2, r.d + h3, r.e + h4, r.f + h5, r.g + h6, r.h + h7] := rfl
   rw [hc, show (0 + 16 + 16 + 16 + 16 : Nat) = 64 from rfl] at *
-  simp only [← hr, regsAt]
-  simp [List.range, List.range.loop, UInt32.add_comm]
+  simp only [← hr, regsAt, a4.ok, hU]
+  simp [List.range, List.range.loop, UInt32.add_comm, inb]
 
 theorem transform_eq_compress (st data : List UInt32) (hs : st.length = 8) (hd : data.length = 16) :
-    transform st data = Spec.compress st data :=
+    transform st data = (Spec.compress st data, true) :=
   transformFrom_eq_compress _ st data (by simp) hs hd
 
 end Nstd.Sha
